@@ -36,7 +36,12 @@ RULE = ("four real CookieHandlers (distinct keys) + attacker handlers with other
         "characters, doubled, inside a JSON document), in every handler mode, plus random compositions; and "
         "re-encodings of genuine cookies (separators / base64 characters / payload characters percent-encoded, "
         "whole value quoted, plus<->space, decoded once, entity-encoded, double-quoted, white space around, "
-        "look-alike separators).  A case is one make or one parse; distinct by its string.")
+        "look-alike separators); (5) cookie jars - ONE parse_cookie call with several cookies: every forged "
+        "string of (2) (structural mutations of two or more base cookies, attacker-key cookies, cookies of the other "
+        "handlers, malformed strings) after, before and between genuine cookies of the same name, all orders of "
+        "(genuine, forged, genuine), two forged ones, the forged cookie right after its own base, the same strings "
+        "under another name / without a name, jars of genuine cookies only in all orders and with repetitions, the "
+        "empty list, random jars of 2-6 cookies.  A case is one make or one parse call; distinct by its string(s).")
 ASSUMPTIONS = [
     "HMAC-SHA256 (cryptojwt HMACSigner), AES-GCM (cryptojwt AES_GCMEncrypter) and Fernet are ideal: MAC/AE terms "
     "of Lib/Crypto.v; a key of the handler is never published (Dolev-Yao hypothesis `secret`)",
@@ -48,6 +53,7 @@ ASSUMPTIONS = [
 ]
 
 BAR = "|"
+JAR_NAME = "n"
 KEYS = {  # key number in the model -> raw bytes
     1: b"S-mode-signing-key-0123456789abcdef!",
     2: b"SE-mode-signing-key-0123456789abcdef",
@@ -216,6 +222,16 @@ class Mode:
             return ("rej", "dropped")
         d = r[0]
         return ("ok", d["value"], d["type"], d["timestamp"])
+
+    def parse_many(self, cookies):
+        """ONE parse_cookie call with a list of cookie dicts: ('raised', class) | ('none',) | ('list', [(value, type, ts)])"""
+        try:
+            r = self.h.parse_cookie(JAR_NAME, [dict(c) for c in cookies])
+        except Exception as e:
+            return ("raised", type(e).__name__)
+        if r is None:
+            return ("none",)
+        return ("list", [(d.get("value"), d.get("type"), d.get("timestamp")) for d in r])
 
     def dissect(self, U, cookie, payload, ts):
         """Take a cookie this handler made apart with library crypto; register its blobs.
@@ -645,6 +661,206 @@ def do_parse(ctx, U, mode, s, kind, parse_cases, seen, base=None):
 
 
 
+# ---------------------------------------------------------------- several cookies in ONE parse_cookie call
+def embeds(out, items, need_must):
+    """is `out` the sequence of contributions of a sub-sequence of `items` (in order), every entry being an allowed
+    content of the cookie it stands for?  need_must: cookies that must contribute may not be skipped"""
+    from functools import lru_cache
+
+    @lru_cache(maxsize=None)
+    def f(i, j):
+        if i == len(items):
+            return j == len(out)
+        it = items[i]
+        if j < len(out) and out[j] in it["allowed"] and f(i + 1, j + 1):
+            return True
+        if need_must and it["must"]:
+            return False
+        return f(i + 1, j)
+    return f(0, 0)
+
+
+def jar_item(role, s, allowed, named=True, must=False, base=None):
+    """one cookie dict of a jar plus the generator's ground truth about it"""
+    if named is True:
+        d = {"name": JAR_NAME, "value": s}
+    elif named is None:
+        d = {"value": s}
+    else:
+        d = {"name": named, "value": s}
+    return {"dict": d, "role": role, "allowed": frozenset(allowed), "must": bool(must and named is True), "base": base}
+
+
+def do_jar(ctx, U, mode, items, kind, list_cases, seen):
+    """one real parse_cookie call on the whole list; oracle from the property text; model case.
+    Oracle: every returned entry is the content of the cookie standing at its position — a cookie this handler
+    issued comes back with exactly its (value, type, timestamp), a string it did not issue contributes nothing (or,
+    byte-level re-encodings of a genuine cookie, exactly that cookie's content) — whatever else is in the list and
+    in whatever order; when the call returns, every genuine cookie of the requested name is in the result."""
+    key = (mode.name, tuple((it["dict"].get("name"), it["dict"]["value"]) for it in items))
+    if key in seen:
+        return
+    seen.add(key)
+    cookies = [it["dict"] for it in items]
+    out = mode.parse_many(cookies)
+    rec = {"kind": "jar:" + kind, "mode": mode.name, "name": JAR_NAME, "cookies": cookies,
+           "roles": [it["role"] + (" of %r" % it["base"] if it["base"] else "") for it in items],
+           "result": list(out)}
+    ctx.case_seen(rec, True)
+    ctx.count("jar:%s:%s" % (mode.name, out[0]))
+    ctx.count("jar-shape:" + re.sub(r"[@\d].*$", "", kind))
+    entries = None if out[0] == "raised" else (list(out[1]) if out[0] == "list" else [])
+    if entries is None:
+        # refusing the whole jar is a rejection; only a jar of genuine cookies of the requested name has to parse
+        if items and all(it["must"] for it in items):
+            ctx.violation("jar-genuine-lost", "mode %s: parse_cookie(%r, <%d cookies, all issued by this handler>) raised %s"
+                          % (mode.name, JAR_NAME, len(items), out[1]), rec)
+    else:
+        entries = [tuple(e) for e in entries]
+        if not embeds(entries, items, False):
+            ctx.violation("jar-forged-entry",
+                          "mode %s: one parse_cookie call with the cookies %r (%s) returns %r: some entry is not the content "
+                          "of the cookie at its position (a string this handler never issued contributed an entry, or a "
+                          "genuine cookie came back with other content)"
+                          % (mode.name, [c["value"] for c in cookies], ", ".join(rec["roles"]), entries), rec)
+        elif not embeds(entries, items, True):
+            ctx.violation("jar-genuine-lost",
+                          "mode %s: one parse_cookie call with the cookies %r (%s) returns %r without raising: a genuine "
+                          "cookie of the requested name is missing from the result"
+                          % (mode.name, [c["value"] for c in cookies], ", ".join(rec["roles"]), entries), rec)
+    if any(U.lenient(c["value"]) for c in cookies):
+        ctx.unmodelled += 1
+        ctx.count("unmodelled:jar-lenient-base64")
+        return
+    used = set()
+    cs = []
+    dt = {}
+    for c in cookies:
+        w, u = U.wire(c["value"])
+        used |= u
+        cs.append("(%s, %s)" % (coq_opt(c.get("name"), coq_str, "pystr"), w))
+        parts = c["value"].split(BAR)
+        if mode.ek is not None and len(parts) == 4:
+            # byte-level facts that decide whether a refused four-part cookie raises or is skipped (standard library)
+            for q in parts[1:]:
+                try:
+                    dt[q] = "(Some %d%%nat)" % len(base64.b64decode(q))
+                except Exception:
+                    dt[q] = "(@None nat)"
+    dtab = coq_list(["(%s, %s)" % (coq_str(q), n) for q, n in dt.items()], "(pystr * option nat)")
+    if out[0] == "raised":
+        obs = "(@None (option (list content)))"
+    elif out[0] == "none":
+        obs = "(Some (@None (list content)))"
+    else:
+        obs = "(Some (Some %s))" % coq_list(["(%s, %s, %s)" % tuple(coq_str(x) for x in e) for e in out[1]], "content")
+    list_cases.append(("(%s, tab, %s, %s, %s, %s)" % (mode.coq(), dtab, coq_str(JAR_NAME), coq_list(cs, "cookie"), obs), used, rec))
+
+
+def jar_stream(ctx, U, modes, forged, rng, list_cases):
+    """(5) cookie jars: genuine and forged cookies of the same name mixed in one call, in every order"""
+    import itertools
+    seen = set()
+    for mode in modes:
+        issued = {}
+        for v, t, ts, c in mode.genuine:
+            if c and typ_in_guard(mode, t) and ts.isdigit() and ts.isascii() and c not in issued \
+                    and mode.parse(c) == ("ok", v, t, ts):
+                issued[c] = (v, t, ts)
+        pool = list(issued.items())                   # (cookie string, content)
+        if len(pool) < 6:
+            ctx.broken.append("mode %s: fewer than six round-tripping genuine cookies for the jar stream" % mode.name)
+            continue
+
+        def gen(k):
+            c, cont = pool[k % len(pool)]
+            return jar_item("genuine", c, {cont}, must=True)
+
+        def gen_avoiding(start, avoid):
+            """a genuine cookie whose content is none of `avoid` (what a neighbour might legitimately parse to)"""
+            near = pool[:8]        # few distinct neighbours keep the blob tables of the model shards small
+            for d in range(len(near)):
+                c, cont = near[(start + d) % len(near)]
+                if cont not in avoid:
+                    return jar_item("genuine", c, {cont}, must=True)
+            return gen(start)
+
+        # ---- forged cookies with the generator's ground truth
+        fz = []
+        nb = 1 if ctx.quick else 12
+        bases = [pool[0]] + [pool[i] for i in rng.sample(range(1, len(pool)), min(nb, len(pool) - 1))]
+        for bi, (c, cont) in enumerate(bases):
+            oc, ocont = pool[(bi * 5 + 2) % len(pool)]
+            if oc == c:
+                oc, ocont = pool[(bi * 5 + 3) % len(pool)]
+            for kind, s2 in mutations(rng, c, oc, exhaustive=False):
+                if s2 in issued:
+                    continue
+                fz.append(jar_item(kind, s2, {cont, ocont}, base=c))
+        for name, lst in forged.items():
+            for c in lst:
+                fz.append(jar_item("attacker-key-cookie:" + name, c, set()))
+        for om in modes:
+            if om is not mode:
+                for g in om.genuine[:4]:
+                    if g[3] and g[3] not in issued:
+                        fz.append(jar_item("other-handler-cookie:" + om.name, g[3], set()))
+        for s2 in ["", BAR, "||", "|||", "17", "17|x", "17|a::b|", "17|a::b|AAAA", "a|b|c|d", "a|b|c|d|e"]:
+            fz.append(jar_item("malformed", s2, set()))
+        # ---- every forged cookie after / before / between genuine ones
+        for fi, f in enumerate(fz):
+            a = gen_avoiding(fi, f["allowed"])
+            b = gen_avoiding(fi + 1, f["allowed"] | a["allowed"])
+            k = re.sub(r"[@\d].*$", "", f["role"])
+            do_jar(ctx, U, mode, [a, f], "genuine,forged:" + k, list_cases, seen)
+            do_jar(ctx, U, mode, [f, a], "forged,genuine:" + k, list_cases, seen)
+            do_jar(ctx, U, mode, [a, f, b], "genuine,forged,genuine:" + k, list_cases, seen)
+            if fi % 9 == 0 or not ctx.quick:
+                for perm in itertools.permutations([a, f, b]):
+                    do_jar(ctx, U, mode, list(perm), "permutation:" + k, list_cases, seen)
+                f2 = fz[(fi * 3 + 1) % len(fz)]
+                do_jar(ctx, U, mode, [a, f, f2], "genuine,forged,forged:" + k, list_cases, seen)
+                do_jar(ctx, U, mode, [a, a, f], "genuine-twice,forged:" + k, list_cases, seen)
+                do_jar(ctx, U, mode, [f, f2], "forged,forged:" + k, list_cases, seen)
+                do_jar(ctx, U, mode, [f], "forged-alone:" + k, list_cases, seen)
+                # the forged cookie's own base right before it
+                if f["base"] in issued:
+                    do_jar(ctx, U, mode, [jar_item("genuine", f["base"], {issued[f["base"]]}, must=True), f],
+                           "base,forged:" + k, list_cases, seen)
+                # the same strings under another name / without a name next to genuine ones
+                do_jar(ctx, U, mode, [a, jar_item(f["role"], f["dict"]["value"], f["allowed"], named="other", base=f["base"]), b],
+                       "genuine,forged-other-name,genuine:" + k, list_cases, seen)
+                do_jar(ctx, U, mode, [a, jar_item(f["role"], f["dict"]["value"], f["allowed"], named=None, base=f["base"]), b],
+                       "genuine,forged-no-name,genuine:" + k, list_cases, seen)
+        # ---- jars of genuine cookies only: all orders, repetitions, other names
+        for k in range(4 if ctx.quick else 40):
+            trio = [gen(k * 3), gen(k * 3 + 1), gen(k * 3 + 2)]
+            for n in (1, 2, 3):
+                for perm in itertools.permutations(trio, n):
+                    do_jar(ctx, U, mode, list(perm), "genuine-only", list_cases, seen)
+            do_jar(ctx, U, mode, [trio[0], trio[0]], "genuine-repeated", list_cases, seen)
+            c, cont = pool[k % len(pool)]
+            do_jar(ctx, U, mode, [trio[1], jar_item("genuine", c, {cont}, named="other"), trio[2]], "genuine-other-name", list_cases, seen)
+            do_jar(ctx, U, mode, [jar_item("genuine", c, {cont}, named=None)], "genuine-no-name", list_cases, seen)
+        do_jar(ctx, U, mode, [], "empty", list_cases, seen)
+        # ---- random jars
+        for _ in range(120 if ctx.quick else 3000):
+            items = []
+            for _ in range(rng.randint(2, 6)):
+                x = rng.random()
+                if x < 0.5:
+                    it = gen(rng.randrange(len(pool)))
+                else:
+                    it = rng.choice(fz)
+                y = rng.random()
+                if y < 0.1:
+                    it = jar_item(it["role"], it["dict"]["value"], it["allowed"], named=rng.choice(["other", "N", ""]), base=it["base"])
+                elif y < 0.15:
+                    it = jar_item(it["role"], it["dict"]["value"], it["allowed"], named=None, base=it["base"])
+                items.append(it)
+            do_jar(ctx, U, mode, items, "random", list_cases, seen)
+
+
 # ---------------------------------------------------------------- idpyoidc.client.cookie (relying-party helper)
 CLIENT_KEY = 11
 CLIENT_SEED = b"rp-seed-0123456789abcdef"
@@ -908,6 +1124,12 @@ def run(ctx):
                         do_parse(ctx, U, mode, BAR.join(q), "genuine-part%d<-attacker%d" % (j, k), parse_cases, seen, base=gen[0][3])
         for s in ["", BAR, "||", "|||", "||||", "17", "17|x", "17|a::b|", "17|a::b|AAAA", "a|b|c|d", "a|b|c|d|e"]:
             do_parse(ctx, U, mode, s, "malformed", parse_cases, seen)
+    # ---- (5) several cookies of the same name in one call
+    list_cases = []
+    import random
+    jrng = random.Random()
+    jrng.setstate(rng.getstate())     # a deterministic fork: the streams after this one stay what they were
+    jar_stream(ctx, U, modes, forged, jrng, list_cases)
     ccases = client_stream(ctx, U, rng)
     t1 = time.time()
     # ---- model
@@ -927,6 +1149,14 @@ def run(ctx):
         ctx.mismatch("... and %d more parse disagreements" % (len(pr["chk_parse"]) - 20), {})
     ctx.unmodelled += len(pr["is_modelled"])
     ctx.count("unmodelled:blob-mixed-with-characters", len(pr["is_modelled"]))
+    lr = eval_shards(ctx, "jar", "list_case", list_cases, ["chk_list", "list_is_modelled"], U)
+    for name, j, case in lr["chk_list"][:20]:
+        ctx.mismatch("parse_cookie on a list of cookies: model and implementation disagree (%s[%d])" % (name, j), case[2],
+                     model=diag(ctx, U, "list_model", case, name) if len(ctx.mismatches) < 3 else None)
+    if len(lr["chk_list"]) > 20:
+        ctx.mismatch("... and %d more disagreements on lists of cookies" % (len(lr["chk_list"]) - 20), {})
+    ctx.unmodelled += len(lr["list_is_modelled"])
+    ctx.count("unmodelled:jar-blob-mixed-with-characters", len(lr["list_is_modelled"]))
     rs = rsplit_cases(rng, 300 if ctx.quick else 5000)
     for _, rec in rs:
         ctx.case_seen(rec, True)
@@ -936,6 +1166,11 @@ def run(ctx):
 
 def replay(ctx, rp):
     case = rp.get("case") or {}
+    if "cookies" in case and "mode" in case:
+        names = {"S": (1, None, None), "SE": (2, 3, None), "E": (None, 4, None), "C": (None, None, 5)}
+        mode = Mode(case["mode"], *names[case["mode"]])
+        ctx.notes.append("replayed parse_cookie(%r, %r) on mode %s: %r (recorded %r)"
+                         % (JAR_NAME, case["cookies"], case["mode"], mode.parse_many(case["cookies"]), case.get("result")))
     if "cookie" in case and "mode" in case:
         names = {"S": (1, None, None), "SE": (2, 3, None), "E": (None, 4, None), "C": (None, None, 5)}
         mode = Mode(case["mode"], *names[case["mode"]])
